@@ -76,8 +76,9 @@ Definition is_hex (a : ascii) : bool := is_lhex a || in_range 65 70 a.
 Definition is_upper := in_range 65 90.
 Definition is_hintc (a : ascii) : bool :=            (* [A-Za-z0-9@_-] *)
   is_upper a || in_range 97 122 a || is_digit a || (cn a =? 64)%N || (cn a =? 95)%N || (cn a =? 45)%N.
-(* bytes allowed inside a token: printable ASCII except whitespace, and bytes >= 0x80 *)
-Definition is_tokc (a : ascii) : bool := in_range 33 126 a || (128 <=? cn a)%N.
+(* bytes allowed inside a token: everything above the space character (the API server's validator, sdk/ruby/lib/arvados/keep.rb
+   STREAM_TOKEN_REGEXP, accepts exactly these; DEL and bytes >= 0x80 included) *)
+Definition is_tokc (a : ascii) : bool := (33 <=? cn a)%N.
 
 Definition c_sp : ascii := " "%char.
 Definition c_nl : ascii := ascii_of_N 10.
